@@ -4,5 +4,5 @@ CONSTANTS
   Cap = 3
   Drain = TRUE
 SPECIFICATION Spec
-INVARIANTS TypeOK OrderOK
-PROPERTIES LexerExits ParserNeverStuck
+INVARIANTS TypeOK OrderOK NoLexerAtReturn
+PROPERTIES LexerExits ParserNeverStuck ParserReturns
